@@ -160,6 +160,7 @@ type probe struct {
 	}
 	// iteration order of the map above does not matter: declarations only
 	b.WriteString("\nfunc asc[T int | int8 | int16 | int32 | int64 | uint | uint8 | uint16 | uint32 | uint64 | float32 | float64 | string](t []T) bool {\n\tfor i := 0; i+1 < len(t); i++ {\n\t\tif !(t[i] < t[i+1]) || t[i] == t[i+1] {\n\t\t\treturn false\n\t\t}\n\t}\n\treturn true\n}\n\n")
+	b.WriteString("func signedZero[T float32 | float64](v T, i int) T {\n\tif v == 0 && i%2 == 1 {\n\t\treturn T(math.Copysign(0, -1))\n\t}\n\treturn v\n}\n\n")
 	b.WriteString("func tablesOK() bool {\n\tok := !tbl_bool[0] && tbl_bool[1]\n")
 	for _, ty := range basicTypes {
 		if ty == "named" || ty == "bool" {
@@ -191,6 +192,9 @@ type probe struct {
 				switch f.Ty {
 				case "named":
 					fmt.Fprintf(&b, "%s: %s(r[%d]), ", f.Name, goFieldType(k, fi, f), fi)
+				case "float32", "float64":
+					// the zero of the table is given as -0.0 at odd positions: equal under < and ==, different bits
+					fmt.Fprintf(&b, "%s: signedZero(tbl_%s[r[%d]], i), ", f.Name, f.Ty, fi)
 				default:
 					fmt.Fprintf(&b, "%s: tbl_%s[r[%d]], ", f.Name, f.Ty, fi)
 				}
